@@ -149,7 +149,7 @@ CHECKS = {
                        "written before files are reclaimed. open(), roll-over and the actual unlink are std::fs and not claimed."),
         "level_note": "trusted: kani-compiler (atomics of Arc treated sequentially), CBMC, CaDiCaL, the ghost map in harness/mem.rs; hook FileNumber::for_verif",
         "filters": ["c06_"],
-        "quick": {"harnesses": [("real", "c06_files*_q*"), ("real", "c06_tracker_q*"), ("real", "c06_gc*_q*")], "jobs": 14, "timeout": 1200},
+        "quick": {"harnesses": [("real", "c06_files*_q*"), ("real", "c06_tracker_q*"), ("real", "c06_gc_q*"), ("real", "c06_gc0_q*"), ("real", "c06_gc2_q*"), ("real", "c06_gc2b_q*")], "jobs": 14, "timeout": 1200},
         "thorough": {"harnesses": [("real", "c06_files*"), ("real", "c06_tracker_q*"), ("real", "c06_gc*")], "jobs": 16, "timeout": 2400},
         "rule": ("case = one script over [append same file, append after roll-over, truncate first / middle / last] (x2 queues in the "
                  "files2 family); after each step every file handle is compared with the ghost 'some retained record lives in it'"),
@@ -324,12 +324,13 @@ CHECKS = {
         "level_text": ("Bounded model checking of no-panic and termination for the parsers recovery runs on untrusted bytes: "
                        "MultiPlexedRecord::deserialize and MultiRecord iteration on fully symbolic buffers of every length up to 24 (thorough 30) "
                        "bytes -- no panic, overflow or out-of-bounds slice on any path, at most len/12 items -- and the frame/record reader on "
-                       "every length-damaged frame of a stream reaches the end of the log within (frames + blocks + 2) calls. Directory "
+                       "every length-damaged frame of a stream reaches the end of the log within (frames + blocks + 2) calls; MemQueues::ack_position (what replay "
+                       "calls for a position record) does not panic after any two operations (c04_ack_*). Directory "
                        "scanning, short/stray/transposed files and MultiRecordLog accessors are std::fs / glue and not claimed."),
         "level_note": "trusted: kani-compiler (its panic / arithmetic-overflow / bounds instrumentation), CBMC, CaDiCaL; from_utf8 stub; checksum oracle",
-        "filters": ["c10_", "c08_len_q"],
-        "quick": {"harnesses": [("real", "c10_*_q*"), ("16", "c08_len_q*")], "jobs": 14, "timeout": 1200},
-        "thorough": {"harnesses": [("real", "c10_*"), ("16", "c08_len_q*")], "jobs": 16, "timeout": 3000},
+        "filters": ["c10_", "c08_len_q", "c04_ack"],
+        "quick": {"harnesses": [("real", "c10_*_q*"), ("16", "c08_len_q*"), ("real", "c04_ack*_q*")], "jobs": 14, "timeout": 1200},
+        "thorough": {"harnesses": [("real", "c10_*"), ("16", "c08_len_q*"), ("real", "c04_ack*")], "jobs": 16, "timeout": 3000},
         "rule": "case = one buffer length with all bytes symbolic (parsers), or one length-damage case (reader progress bound); counted from the symex log",
         "samples": ["c10_deser_q_n24: 24 symbolic bytes incl. tag, name length and batch headers", "c10_mrec_q_n25: MultiRecord::new_unchecked over 25 symbolic bytes, iterate to first error"],
         "functions": ["record::MultiPlexedRecord::deserialize", "record::MultiRecord::{new,new_unchecked,next}", "frame::reader::FrameReader::read_frame", "recordlog::reader::RecordReader::{go_next,read_record}"],
